@@ -532,6 +532,132 @@ def wrap_free(R, rule, fn, inline=(), roots=('+',), known=None):
                      % (txt, '; '.join(sym.fmt(c) for c in p.cond_terms())[:260]))
 
 
+def _field_store_sites(u, record, field):
+    """{function name: [assignment nodes]} of the functions of unit u that assign <record>.<field> (=, op=, ++/--)"""
+    out = {}
+    for name, f in u.functions.items():
+        for x in cast.walk(f):
+            kd = cast.kind(x)
+            tgt = None
+            if kd == 'BinaryOperator' and x.get('opcode') == '=':
+                tgt = x['inner'][0]
+            elif kd == 'CompoundAssignOperator':
+                tgt = x['inner'][0]
+            elif kd == 'UnaryOperator' and x.get('opcode') in ('++', '--'):
+                tgt = x['inner'][0]
+            if tgt is None:
+                continue
+            t0 = cast.strip_all_casts(tgt)
+            if cast.kind(t0) == 'MemberExpr' and t0.get('name') == field:
+                bt = t0['inner'][0].get('type', {}).get('qualType', '')
+                if record in bt:
+                    out.setdefault(name, []).append(x)
+    return out
+
+
+def config_bits_rule(R, rule, bits, why, u=None, key='area-flags', only=None):
+    """The access rights of an area (REG_AF_READABLE, REG_AF_WRITEABLE, REG_AF_SKIP_DEFAULTS in RegisterArea.flags) are the
+    table's configuration: what the library reads to decide who may read, write and load defaults.  Whatever else a
+    function keeps in that word (a mark of its own in another bit), every store into it leaves these bits as they were -
+    decided per store from the value stored (old | m, old & ~m with m disjoint from the bits; anything else is not
+    proved).  `bits`: enumerator names this property depends on; u: unit to look at (default: the register unit)."""
+    from .. import sym as _sym
+    ck = R.ck
+    u = u or R.u
+    vals = {b: u.enums.get(b) for b in bits}
+    if any(v is None for v in vals.values()):
+        return ck.broken(rule, key, 'include/ufw/register-table.h', 'enumerator missing: %s' % [b for b, v in vals.items() if v is None])
+    sites = _field_store_sites(u, 'RegisterArea', 'flags')
+    if only is not None:
+        sites = {k: v for k, v in sites.items() if k in only}
+    elif u is R.u:
+        sites = {k: v for k, v in sites.items() if not k.startswith('vp_fixture_')}
+    bad = None
+    nst = 0
+    for fn in sorted(sites):
+        eng = _sym.Engine(u, sizeof=R.so, inline=set())
+        try:
+            ps = eng.paths(fn)
+        except (_sym.Unsupported, _sym.PathLimit) as e:
+            ck.broken(rule, '%s:%s' % (key, fn), cast.where(u.fn(fn)), 'path enumeration: %s' % e)
+            continue
+        nodes = {id(x) for x in sites[fn]}
+        for p in ps:
+            for e in p.stores():
+                if id(e.node) not in nodes or e.name[0] != 'f' or e.name[2] != 'flags':
+                    continue
+                nst += 1
+                v = e.args[0]
+                for b, bv in vals.items():
+                    stt = _bit_state(v, e.name, bv)
+                    if stt != 'same':
+                        bad = bad or ('%s stores %s into an area\'s flags at %s: the bit %s (%#x) %s - %s'
+                                      % (fn, _norm_term(v), e.where(), b, bv,
+                                         {1: 'is set', 0: 'is cleared', None: 'is not proved to keep its value'}[stt], why))
+    ck.verdict(bad is None, rule, key, 'include/ufw/register-table.h',
+               'no store into RegisterArea.flags changes %s (%d stores in %d functions looked at)' % ('/'.join(bits), nst, len(sites))
+               if bad is None else bad)
+    return nst
+
+
+def config_bits_fixture(R, rule):
+    """zero-expected rule: the positive example that must be reported on every run (a function setting bit 0 - the entry's
+    TOUCHED mark, the area's READABLE right - in an area's flag word, parsed with the unit's own headers and flags)"""
+    src = ('#include "core.c"\n'
+           'void vp_fixture_area_mark(RegisterArea *a) { a->flags |= REG_EF_TOUCHED; }\n'
+           'void vp_fixture_area_mark_ok(RegisterArea *a) { a->flags |= (1u << 8u); a->flags &= ~(1u << 9u); }\n')
+    try:
+        fu = cast.load(UNIT, source_text=src)
+    except front.FrontError as e:
+        return R.ck.broken(rule, 'area-flags:fixture', '', str(e))
+
+    class _Q:       # quiet collector
+        def __init__(self):
+            self.v = []
+        def verdict(self, ok, rule, key, where='', detail='', **kw):
+            self.v.append((ok, detail))
+        def broken(self, rule, key, where='', detail='', **kw):
+            self.v.append((None, detail))
+
+    class _R:
+        pass
+    q, r2 = _Q(), _R()
+    r2.ck, r2.u, r2.so = q, fu, R.so
+    config_bits_rule(r2, rule, ('REG_AF_READABLE',), 'fixture', u=fu, key='fixture', only={'vp_fixture_area_mark'})
+    hit = [d for ok, d in q.v if ok is False and 'vp_fixture_area_mark ' in d]
+    q.v = []
+    config_bits_rule(r2, rule, ('REG_AF_READABLE',), 'fixture', u=fu, key='fixture', only={'vp_fixture_area_mark_ok'})
+    clean = bool(q.v) and all(ok is True for ok, d in q.v)
+    if hit and clean:
+        R.ck.holds(rule, 'area-flags:fixture', 'fixtures', 'the positive example (a function setting bit 0 of an area\'s flags) is reported, the one using other bits is not')
+    else:
+        R.ck.broken(rule, 'area-flags:fixture', 'fixtures', 'the rule does not report its positive example (%s)' % [d[:80] for ok, d in q.v])
+
+
+def _bit_state(term, base, bit):
+    """0 / 1 / 'same' (as in base) / None for flag `bit` of the value `term` stored over `base`"""
+    t = term
+    while t[0] == 'cast':
+        t = t[2]
+    if t == base:
+        return 'same'
+    if t[0] == 'c':
+        return 1 if t[1] & bit else 0
+    if t[0] in ('&b', '|b', '^b'):
+        a, b = t[1], t[2]
+        if a[0] == 'c' and b[0] != 'c':
+            a, b = b, a
+        if b[0] != 'c':
+            return None
+        sa = _bit_state(a, base, bit)
+        if t[0] == '&b':
+            return sa if (b[1] & bit) else 0
+        if t[0] == '|b':
+            return 1 if (b[1] & bit) else sa
+        return sa if not (b[1] & bit) else ({0: 1, 1: 0}.get(sa) if sa in (0, 1) else None)
+    return None
+
+
 def callback_guard(R, rule, fn, inline=()):
     """An area's read / write callback may be absent (a write-only or read-only custom area; the predicates
     register_area_is_readable / register_area_can_write test for it): every call through such a pointer is made only on
